@@ -151,7 +151,7 @@ Section Compose.
       node_handle (krecv k) n m = (n', ds, us) -> NInv k n'.
   Hypothesis N2 : forall k n S, kok k -> NInv k n -> n_cancelled n = false ->
       approx (n_cin n) S -> approx (n_cout n) (ksem k S).
-  Hypothesis N3 : forall k n m n' ds us, node_handle (krecv k) n m = (n', ds, us) ->
+  Hypothesis N3 : forall k n m n' ds us, kok k -> node_handle (krecv k) n m = (n', ds, us) ->
       In UCancel us -> n_alive n' = false.
   Hypothesis N4 : forall k n, kok k -> NInv k n -> wf_trace (n_cout n).
 
